@@ -13,15 +13,20 @@ CLAIMS = {
     "C02": ("proof", "6.C02",
             "Per-event contracts of CallTracer.__call__ / handle_call / handle_return / _get_func / add_yield_type over the whole tracer view "
             "(traces map, per-trace fields, logger effect trace) with the ghost cause of each profile event: discharged for all frames, "
-            "all argument values and all interleavings of events (each event is one step; the step contracts quantify over the whole view). "
+            "all argument values and all interleavings of events (each event is one step; the step contracts quantify over the whole view); a finished call's per-call state is dropped "
+            "also when the logger fails on it (exc:finished-dropped); the function cache maps id(code) to (code, function) with the function's code identical to the entry's; get_func / get_func_in_mro / _has_code: whatever "
+            "the lookup stages return has exactly the frame's code object. "
             "Bounded companion: program templates traced by the real tracer against ground truth from sys.monitoring.",
-            TRUST + "T-EVENTS (CPython 3.12 profile protocol: cause/opcode relation) assumed and validated by the bounded tier; get_func lookup is bounded only; "
+            TRUST + "T-EVENTS (CPython 3.12 profile protocol: cause/opcode relation) assumed and validated by the bounded tier; get_locals_from_previous_frames assumed; "
             "carve-outs for the recorded known findings (unwind at a yield point, code named trace_types, mid-life pickup of generators)."),
     "C03": ("proof", "6.C03",
             "Containment: CallTracer.__call__ is proved to return self and let no Exception escape, whatever get_type / get_func / logger.log raise; "
-            "trace_calls is proved to restore the previous profiler and call flush exactly once on normal and exceptional exit. "
-            "The 'no user code on program objects' effect discipline and whole-program equivalence are decided by the bounded tier (tripwire objects, traced vs untraced runs).",
-            TRUST + "effect obligations (T-EFFECT) are bounded only in this round; flush() raising is a recorded known finding (carve-out)."),
+            "trace_calls is proved to restore the previous profiler and call flush exactly once on normal and exceptional exit, whatever the with-body did to the profiler slot. "
+            "T-EFFECT: in get_type / get_dict_type / handle_call / handle_return / the function lookup every operation on a value of the traced program (or on an element, key or view obtained from one, or on the class "
+            "returned by type(v)) that could dispatch to user code - attribute access, isinstance, hashing as a dict key, == / in, truthiness, iteration of non-exact containers - is an obligation that must be silent. "
+            "Whole-program equivalence is decided by the bounded tier (tripwire objects, traced vs untraced runs, fault injection).",
+            TRUST + "T-EFFECT covers the operations listed (an operation the interpreter does not model makes the function leave reach, never pass silently); recorded known findings (carve-outs): flush() raising, "
+            "_has_code reading __code__ / __wrapped__ of arbitrary callables, classes with a metaclass __eq__ / __hash__ compared and hashed as type values."),
     "C04": ("proof", "6.C04",
             "get_type and get_dict_type: mem(obj, result) for every finite acyclic value and every size limit, with termination (decreases size(obj)); "
             "shrink_types and shrink_typed_dict_types (four loop invariants over the required / optional bookkeeping, both the merged-TypedDict and the oversize Dict[str, V] path): "
@@ -41,7 +46,7 @@ CLAIMS = {
             "make_query: the WHERE clause read off the SQL text built on each path denotes exactly module == m and qualname starts-with p (byte-wise), GROUP BY = all selected "
             "columns (distinct rows), LIMIT bound to n; SQLiteStore.add: all serialisation precedes one transaction containing exactly one executemany over the rows of the "
             "serialisable traces in order (rollback and nothing else on failure); filter: one read transaction executing that query, one thunk per row; "
-            "serialize_traces and CallTraceStoreLogger.log/flush. Atomicity/durability under concurrency and crashes follow from this shape only under the assumed ACID contract "
+            "list_modules (DISTINCT module column of the table, no WHERE clause); serialize_traces and CallTraceStoreLogger.log/flush. Atomicity/durability under concurrency and crashes follow from this shape only under the assumed ACID contract "
             "of SQLite; the bounded tier exercises real stores (collision alphabet, fault injection, concurrent writers).",
             TRUST + "T-SQL (fragment semantics, LIKE uninterpreted), SQLite ACID behaviour across processes and crash points is assumed, not verified."),
     "C10": ("proof", "6.C10",
@@ -54,7 +59,8 @@ CLAIMS = {
             "one bare '*' before the first keyword-only parameter unless *args precedes it (loop invariant with ghost counting functions), single-line and wrapped forms are joins "
             "of the same tokens; render_parameter text exact. build_module_stubs (heap proof over ModuleStub / ClassStub objects with freshness and injectivity invariants): one module stub per "
             "module that has a definition; every definition appears - at module level under its bare name, or inside the ClassStub named by its class path - with its own signature, kind and async flag; "
-            "nothing else appears, also when several modules define classes / functions of the same names. Decorator text, async keyword and 'parses as Python' are decided by the bounded tier (ast.parse of real renders).",
+            "nothing else appears, also when several modules define classes / functions of the same names. FunctionStub.render (prefix / decorator line by kind, `async ` exactly for coroutine functions, name, the signature rendered by render_signature, `: ...`) "
+            "and FunctionKind.from_callable (classmethod / staticmethod / property / cached_property / instance / module by the static attribute) are proved. Decorator text, async keyword and 'parses as Python' are decided by the bounded tier (ast.parse of real renders).",
             TRUST + "T-SIG; T-STUBS (FunctionStub as an immutable record - checked by an AST scan for field assignments outside constructors); render_annotation text is an uninterpreted function of the type at L1 (C11 bounded); "
             "the render methods of the stub classes are bounded; nested-class rendering is a recorded known finding."),
     "C13": ("proof", "6.C13",
@@ -67,7 +73,8 @@ CLAIMS = {
             TRUST + "T-PATH (pathlib), LIB_PATHS module constant and os.environ constant during a run (bounded validation); code named trace_types is a recorded known finding."),
     "C18": ("proof", "6.C18",
             "handle_call with the sampling draw as an explicit ghost input: unsampled call leaves the view unchanged, an entry is created only for this frame, with "
-            "arg types = get_type of the values bound at that moment, and only when the draw is 0 (or the rate is unset / 0).",
+            "arg types = get_type of the values bound at that moment, and only when the draw is 0 (or the rate is unset / 0); trace_calls installs, for the duration of the block, a fresh tracer with exactly the given sampling rate "
+            "(and logger, filter, limit) and no per-call state; monkeytype.trace threads Config.sample_rate (default proved None) into it.",
             TRUST + "uniformity/independence of random.randrange (statistical half bounded); mid-life pickup of generators is a recorded known finding (carve-out on cause)."),
 }
 
@@ -90,10 +97,11 @@ CLAIMS["C05"] = ("exploration", "6.C05",
     "generator branch of get_type (inventory obligations with path conditions); a top-level TypedDict from get_dict_type has exactly the dict's keys, all required.",
     TRUST + "the witness oracle `tight` of runtime/props/c05.py (reads 'Any as an alternative' as the element type of an observed empty container); the closure lemma over merges is not proved.")
 CLAIMS["C06"] = ("proof", "6.C06",
-    "Proved: get_dict_type builds a TypedDict only for a non-empty dict with all-string keys and at most k keys (all required, none optional) and none at all for k <= 0; get_type "
-    "returns no TypedDict for k <= 0; the configured limit is threaded unchanged from Config through monkeytype.trace / trace_calls / CallTracer into every get_type call and "
-    "from cli.get_stub into stub generation. Bounded: td_ok over all nested nodes after merging any number of traces, through the JSON round trip and in rendered class stubs.",
-    TRUST + "the deep invariant td_ok(result, k) on merged / rewritten / decoded types is bounded (runtime/props/c06.py).")
+    "Proved: the deep invariant td_okd(t, k) - every TypedDict node of t, at any depth, has between 1 and k keys, none at all for k <= 0 - holds of the result of get_type / get_dict_type for every value, "
+    "is preserved by shrink_types / shrink_typed_dict_types (merging any number of types; oversize merges fall back to Dict[str, V]), by every shipped rewriter, by shrink_traced_types and get_updated_definition; "
+    "get_dict_type builds a TypedDict only for a non-empty dict with all-string keys and at most k keys; the configured limit is threaded unchanged from Config (defaults proved) through monkeytype.trace / "
+    "trace_calls (the tracer the block runs under carries exactly the given limit) / CallTracer into every get_type call and from cli.get_stub into stub generation. Bounded: the same invariant through the JSON round trip and in rendered class stubs.",
+    TRUST + "the invariant on decoded types follows from the C08 round trip up to structural equality (td_okd respects teq: not proved); class stubs (ReplaceTypedDictsWithStubs) are bounded (runtime/props/c06.py).")
 CLAIMS["C14"] = ("exploration", "6.C14",
     "Bounded: one trace multiset written to real sqlite stores in several orders, with duplicates, split into batches over two connections; `stub` run in fresh interpreters with "
     "different PYTHONHASHSEED, k in {0,3}, default and no rewriter: identical stub up to union-member order. Proved extras: make_query groups by all selected columns (distinct rows) "
@@ -112,7 +120,8 @@ CLAIMS["C11"] = ("exploration", "6.C11",
 CLAIMS["C16"] = ("proof", "6.C16",
     "RemoveImportsTransformer.leave_Import / leave_ImportFrom are proved (nested loop invariants) to remove a name only if the ImportItem it denotes (module, object, alias) is in the move list, "
     "to invent nothing, to leave star imports untouched and to remove a statement iff all its names moved; _remove_typing_module is proved never to confine typing or mypy_extensions items "
-    "(what generated code needs at import time). Bounded companion on real libcst: source shapes x stubs, placement of every import on the AST, first statement, result executed in a fresh namespace.",
+    "(what generated code needs at import time). Bounded companion on real libcst: source shapes (incl. names bound again by later imports, except-branch fallbacks, sources with nothing left to annotate) x stubs, "
+    "placement of every import on the AST, first statement, result executed in a fresh namespace.",
     TRUST + "T-CST (libcst node API: names, evaluated_name / evaluated_alias, with_changes, RemoveFromParent), AddImportsVisitor / __future__ insertion and get_newly_imported_items are bounded only.")
 CLAIMS["C15"] = ("exploration", "6.C15",
     "Bounded stand-in (the substance of C15 is libcst's ApplyTypeAnnotationsVisitor, a dependency of several thousand lines outside any VC generator available here; assuming its contract would assume "
